@@ -44,6 +44,11 @@ type Record struct {
 	Ext      []string `json:"ext,omitempty"`       // extended switches in use
 	RootAttr bool     `json:"root_attr,omitempty"` // x:xmptk attribute on the root element
 	Order    []int    `json:"order,omitempty"`     // permutation of Props within their block
+	// white space that XML allows inside tags: before the '>' / '/>' that ends a start tag, around the '=' of an
+	// attribute, and between an element's name and its '>' ("" = none)
+	WSClose string    `json:"ws_close,omitempty"`
+	WSEq    [2]string `json:"ws_eq,omitempty"`
+	WSName  string    `json:"ws_name,omitempty"`
 }
 
 var uris = map[string]string{
@@ -132,20 +137,20 @@ func Serialise(r Record) []byte {
 			if q != '\'' {
 				q = '"'
 			}
-			fmt.Fprintf(&sb, "%s%s:%s=%c%s%c", ws, p.NS, p.Name, q, p.Value, q)
+			fmt.Fprintf(&sb, "%s%s:%s%s=%s%c%s%c", ws, p.NS, p.Name, r.WSEq[0], r.WSEq[1], q, p.Value, q)
 		}
 		if len(elems) == 0 && len(arrays) == 0 {
-			sb.WriteString("/>")
+			sb.WriteString(r.WSClose + "/>")
 			continue
 		}
-		sb.WriteString(">")
+		sb.WriteString(r.WSClose + ">")
 		// elements and arrays interleaved deterministically: element, array, element, ...
 		ei, ai := 0, 0
 		for ei < len(elems) || ai < len(arrays) {
 			if ei < len(elems) {
 				p := elems[ei]
 				ei++
-				fmt.Fprintf(&sb, "%s<%s:%s>%s</%s:%s>", ws, p.NS, p.Name, p.Value, p.NS, p.Name)
+				fmt.Fprintf(&sb, "%s<%s:%s%s>%s</%s:%s%s>", ws, p.NS, p.Name, r.WSName, p.Value, p.NS, p.Name, r.WSName)
 			}
 			if ai < len(arrays) {
 				a := arrays[ai]
@@ -153,7 +158,7 @@ func Serialise(r Record) []byte {
 				fmt.Fprintf(&sb, "%s<%s:%s>%s<rdf:%s>", ws, a.NS, a.Name, ws, a.Kind)
 				for i, it := range a.Items {
 					if i < len(a.Langs) && a.Langs[i] != "" {
-						fmt.Fprintf(&sb, "%s<rdf:li xml:lang=\"%s\">%s</rdf:li>", ws, a.Langs[i], it)
+						fmt.Fprintf(&sb, "%s<rdf:li xml:lang%s=%s\"%s\"%s>%s</rdf:li>", ws, r.WSEq[0], r.WSEq[1], a.Langs[i], r.WSClose, it)
 					} else {
 						fmt.Fprintf(&sb, "%s<rdf:li>%s</rdf:li>", ws, it)
 					}
